@@ -31,6 +31,14 @@ Proof.
     destruct (b' =? b) eqn:E; [|reflexivity]. apply Z.eqb_eq in E. subst b'. cbn [implb]. apply Z.leb_le. eauto.
 Qed.
 
+(* every competitor recorded at budget b (halving: by evaluations that have not failed) is <= z *)
+Definition best_among (p : params) (h : hist) (b z : Z) : bool := forallb (fun c => c <=? z) (hist_comp p h b).
+
+Lemma best_among_spec p h b z : best_among p h b z = true <-> (forall c, In c (hist_comp p h b) -> c <= z).
+Proof.
+  unfold best_among. rewrite forallb_forall. split; intros H c Hc; specialize (H c Hc); now apply Z.leb_le.
+Qed.
+
 Definition enough (p : params) (h : hist) (b : Z) : bool :=
   negb (is_asha p) || (min_comp p <=? Z.of_nat (length (hist_comp p h b))).
 
@@ -39,7 +47,7 @@ Definition outside_topk (p : params) (h : hist) (b z : Z) : bool :=
   is_decision p b && ((Z.of_nat (length comp) <? min_comp p) || Nat.leb (topk_k p (length comp)) (count_gt (z + eps p) comp)).
 
 Definition c_best (p : params) (h : hist) (b z : Z) (o : bool) : bool :=
-  (b <? max_steps p) && is_sched p && best_at h b z && enough p h b && o.
+  (b <? max_steps p) && is_sched p && best_among p h b z && enough p h b && o.
 Definition c_topk (p : params) (h : hist) (b z : Z) (o : bool) : bool :=
   (b <? max_steps p) && is_asha p && o && negb (outside_topk p h b z).
 
@@ -67,7 +75,7 @@ Record StopSpec (p : params) (h : hist) (nfull : Z) (ob : list (Z * obj)) (o : b
   sp_max : forall b v t, ob = (b, v) :: t -> max_steps p <= b -> o = true;
   sp_fail : forall b t, ob = (b, Fail) :: t -> o = true;
   sp_best : forall b z t, ob = (b, Num z) :: t -> b < max_steps p -> scheduled p ->
-            (forall ob' z', In ob' h -> In (b, Num z') ob' -> z' <= z) ->
+            (forall c, In c (hist_comp p h b) -> c <= z) ->
             (kind p = KAsha -> min_comp p <= Z.of_nat (length (hist_comp p h b))) -> o = false;
   sp_topk : forall b z t, ob = (b, Num z) :: t -> b < max_steps p -> kind p = KAsha -> o = true ->
             let comp := hist_comp p h b in
@@ -111,7 +119,7 @@ Proof.
   - intros b' t [= -> -> ->]. cbn [is_fail andb] in E2. destruct o; auto; discriminate.
   - intros b' z t [= -> -> ->] Hb Hsc Hbest Hen.
     destruct (c_best p h b' z o) eqn:E3 in H; [discriminate|]. unfold c_best in E3.
-    apply Z.ltb_lt in Hb. apply is_sched_spec in Hsc. apply best_at_spec in Hbest. apply enough_spec in Hen.
+    apply Z.ltb_lt in Hb. apply is_sched_spec in Hsc. apply best_among_spec in Hbest. apply enough_spec in Hen.
     rewrite Hb, Hsc, Hbest, Hen in E3. cbn [andb] in E3. exact E3.
   - intros b' z t [= -> -> ->] Hb Hk Ho. cbn zeta.
     destruct (c_best p h b' z o) eqn:E3 in H; [discriminate|]. destruct (c_topk p h b' z o) eqn:E4 in H; [discriminate|].
@@ -132,7 +140,7 @@ Proof.
   { unfold c_best in E3. apply andb_true_iff in E3 as [E3 Eo]. apply andb_true_iff in E3 as [E3 Een]. apply andb_true_iff in E3 as [E3 Ebe].
     apply andb_true_iff in E3 as [Elt Esc]. subst o.
     apply Z.ltb_lt in Elt. apply is_sched_spec in Esc.
-    pose proof (proj1 (best_at_spec _ _ _) Ebe) as Hb'. pose proof (proj1 (enough_spec _ _ _) Een) as He'.
+    pose proof (proj1 (best_among_spec _ _ _ _) Ebe) as Hb'. pose proof (proj1 (enough_spec _ _ _) Een) as He'.
     specialize (Hbest _ _ _ eq_refl Elt Esc Hb' He'). discriminate. }
   destruct (c_topk p h b z o) eqn:E4.
   { unfold c_topk in E4. apply andb_true_iff in E4 as [E4 Eout]. apply andb_true_iff in E4 as [E4 Eo]. apply andb_true_iff in E4 as [Elt Eas].
